@@ -257,6 +257,13 @@ fn run_case(seed: u64) -> (Vec<(String, String)>, Vec<String>, Layout, Vec<Event
   (v, d.log, layout, hist)
 }
 
+/// the call log of one seeded case with everything that depends on the clock blanked out (time-out values, verdicts of the oracles): for the differential
+/// run of the current loop against the pinned (verified) text of the loop under the same scripted driver
+pub fn case_log(seed: u64) -> Vec<String> {
+  let (_, log, _, _) = run_case(seed);
+  log.into_iter().filter(|l| !l.trim_start().starts_with("!!")).map(|l| { if let Some(i) = l.find("poll(timeout Some(") { let j = l[i..].find("))").map(|j| i + j + 2).unwrap_or(l.len()); format!("{}poll(timeout Some(_)){}", &l[..i], &l[j..]) } else { l } }).collect()
+}
+
 pub fn explore(prop: &str, secs: f64, seed: u64) -> i32 {
   let t0 = std::time::Instant::now();
   let mut n: u64 = 0;
